@@ -859,16 +859,27 @@ func (g *gen) writeBuiltinNumType(b *buffer, recv *a.Expr, method t.ID, args []*
 		return nil
 
 	case t.IDHighBits:
-		// "recv.high_bits(n:etc)" in C is "((recv) >> (8*sizeof(recv) - (n)))".
+		// "recv.high_bits(n:etc)" in C is "((recv) >> (8*sizeof(recv) - (n)))"
+		// for a non-zero constant n. Otherwise, n might be zero and shifting by
+		// the full bit width is undefined behavior in C, so it is
+		// "(((recv) >> 1u) >> (8*sizeof(recv) - 1 - (n)))".
+		sz, err := g.sizeof(recv.MType())
+		if err != nil {
+			return err
+		}
+		cv := args[0].AsArg().Value().ConstValue()
+		safe := (cv != nil) && (cv.Sign() > 0)
+		if !safe {
+			b.writeb('(')
+		}
 		b.writes("((")
 		if err := g.writeExpr(b, recv, false, depth); err != nil {
 			return err
 		}
-		b.writes(") >> (")
-		if sz, err := g.sizeof(recv.MType()); err != nil {
-			return err
+		if safe {
+			b.printf(") >> (%du", 8*sz)
 		} else {
-			b.printf("%du", 8*sz)
+			b.printf(") >> 1u) >> (%du", 8*sz-1)
 		}
 		b.writes(" - ")
 		if err := g.writeExpr(b, args[0].AsArg().Value(), false, depth); err != nil {
